@@ -528,6 +528,7 @@ type globalReset struct {
 	pkg string
 	idx int
 	f   func()
+	off bool
 }
 
 var (
@@ -545,7 +546,7 @@ func RegisterReset(pkg string, idx int, f func()) {
 	if _, ok := resetPkgOrder[pkg]; !ok {
 		resetPkgOrder[pkg] = len(resetPkgOrder)
 	}
-	globalResets = append(globalResets, globalReset{pkg, idx, f})
+	globalResets = append(globalResets, globalReset{pkg: pkg, idx: idx, f: f})
 	resetsSorted = false
 }
 
@@ -566,8 +567,21 @@ func runGlobalResets() {
 		})
 		resetsSorted = true
 	}
-	for _, r := range globalResets {
-		r.f()
+	for i := range globalResets {
+		r := &globalResets[i]
+		if r.off {
+			continue
+		}
+		func() {
+			// an initialiser that cannot be evaluated twice (it registers something process-wide:
+			// expvar.NewInt, flag.String ...) keeps its first value from then on
+			defer func() {
+				if recover() != nil {
+					r.off = true
+				}
+			}()
+			r.f()
+		}()
 	}
 }
 
